@@ -21,9 +21,12 @@ CLAIMED = {
         text="Kernel-checked: the model marks every state- or input-dependent panic!/assert_invariant!/index/checked-arithmetic site of the Rust code as a `.panic` outcome; for EVERY configuration and EVERY "
              "call list no reply is `.panic` (induction with the C04 invariant: accepted payloads are non-empty, composition offsets cannot overflow, finalize's guards precede the builders), the "
              "fragmented operations never panic and their duration arithmetic is total; loop bounds: the Annex B scanner examines at most one position per input byte, the creation-date loop runs at most "
-             "400 times for every Unix time. Correspondence: the real library built with overflow checks + debug assertions under catch_unwind and a watchdog, on exhaustive small byte strings through every "
+             "400 times for every Unix time. CHECKED (index-walking) models (lean/Muxide/Checked, Props/C12Checked*.lean) mirror find_start_code, AnnexBNalIter, annexb_to_avcc/hevc_annexb_to_hvcc, extract_avc_config, "
+             "is_h264_keyframe, parse_obu_header, ObuIter, the payload slices of parse_sequence_header/is_av1_keyframe, BitReader::read_bit, adts_to_raw, the Opus TOC readers and the VP9 var-uint/keyframe readers operation by "
+             "operation (every data[i], slice, usize sum, shift amount, assert_invariant! and loop fuel is an operation that fails where Rust would panic) and are proved to return .ok of the structural model's result for every "
+             "input of at most isize::MAX bytes; the validation module is in the model with its is_valid <-> no-errors invariant proved through every nesting. Correspondence: the real library built with overflow checks + debug assertions under catch_unwind and a watchdog, on exhaustive small byte strings through every "
              "public parser, structured inputs truncated at every length / bit-flipped, all f64 classes, integer extremes, extreme metadata, extreme fragmented configurations.",
-        note=TB + "PARTIAL for what no model can exhibit: allocation failure/aborts, stack depth, format!/hex-dump code and the clap parser are covered by the differential run only. Arithmetic in the model is on unbounded Nat with explicit wraps; "
+        note=TB + "PARTIAL for what no model can exhibit: allocation failure/aborts, stack depth, format!/hex-dump code and the clap parser are covered by the differential run only; the checked models are hand-written mirrors of the Rust index operations (tied by the panic/no-panic correspondence), the remaining parsers (HEVC extraction, parse_sequence_header's arithmetic, VP9 extract) have structural models only. tools/coverage.py measures which source lines the correspondence cases execute (95% of src lines; the rest is listed in coverage/uncovered.txt). Arithmetic in the model is on unbounded Nat with explicit wraps; "
              "Rust-side overflow is detected by the overflow-checked harness build.",
         technique="Lean 4 proof (no-panic invariant over all call sequences, loop-step bounds) + correspondence check with panic/overflow/timeout detection",
         ref="DESIGN.md section 5 C12"),
@@ -63,7 +66,8 @@ CLAIMED = {
     "C04": dict(
         text="Kernel-checked refinement: an invariant relates the concrete muxer state to the abstract history of accepted calls (preserved by every call, established by build); under it every "
              "write/finish reply is ok exactly when the Spec.Contract violation list of that call is empty, and every error names a precondition that the call violated (explains). The soft-float "
-             "facts used (monotone ticks, lt/le duality, range test equivalence on genuine doubles) are proved; the scanner hypothesis is discharged by C14_split. "
+             "facts used (monotone ticks, lt/le duality, range test equivalence on genuine doubles) are proved; the scanner hypothesis is discharged by C14_split. Builder half (Props/C04Builder.lean): for every sequence of builder "
+             "calls build succeeds iff some call configured video and no Opus track above 255 channels is left, and MissingVideoConfig is reported iff no video call was made. "
              "Correspondence + oracle: the implementation's accept/reject decisions and error variants are judged against Spec.Contract computed from the history of the implementation's own replies.",
         note=TB + "Residual explicit hypotheses in the theorems: timestamps are decodings of 64-bit patterns (IsDouble), converted payload and file below 4 GiB (VideoSizeOk/AudioSizeOk/NoSizeLimit), NoStraddle (now unnecessary).",
         technique="Lean 4 proof (refinement to an abstract history with a 22-field invariant) + correspondence check",
@@ -79,7 +83,7 @@ CLAIMED = {
         text="Kernel-checked: only finishStats produces chunks; a successful finish sets finished/finalized; afterwards every finish returns AlreadyFinished with no chunk and every write returns an "
              "error leaving the whole state unchanged; a failed finalize also leaves finalized set (no second header). Statistics: frame counts are the queue lengths, bytes = previous count + total "
              "chunk length, duration = maxEndPts/90000 where maxEndPts is proved to be the maximum over all samples of pts + duration. Correspondence with a recording sink tagging bytes per call.",
-        note=TB + "Found and fixed in /repo: duration used the last sample in decode order (too short for reordered streams).",
+        note=TB + "Found and fixed in /repo: duration used the last sample in decode order (too short for reordered streams). Known finding stats-duration-f64-precision: an f64 of seconds cannot be within one tick beyond 2^53 ticks.",
         technique="Lean 4 proof (state-machine lemmas, max over fold) + correspondence check",
         ref="DESIGN.md section 5 C06"),
     "C07": dict(
@@ -88,7 +92,9 @@ CLAIMED = {
              "1-32 operating points, frame ids, order hint, screen content, every color_config path); LEB128 (all 1-8 byte encodings), OBU header and extraction of the FIRST sequence-header OBU from a "
              "temporal unit; the monochrome deviation is characterised exactly (partial theorem + counterexample) and recorded as known finding av1C-csp. Strict decoders (Spec/Strict.lean) of avcC/hvcC/av1C/"
              "vpcC/esds/dOps and the sample entries are evaluated on the implementation's files against expectations computed from the submitted first keyframe by the Spec (first SPS/PPS/VPS by NAL type, "
-             "sequence-header OBU bytes, VP9 header fields), for progressive files and fragmented init segments; audio entry channel count / rate / ASC / dOps.",
+             "sequence-header OBU bytes, VP9 header fields), for progressive files and fragmented init segments; audio entry channel count / rate / ASC / dOps. The AV1 expectations come from a CERTIFYING "
+             "reader (Spec/Av1Decode.lean): a full syntax-table decoder whose answer is used only if the trusted encoder re-encodes it to a prefix of the bits (certifiedSeqHdr_sound) - the library's own parser is no longer consulted "
+             "by the oracle (that circularity hid the uvlc-32 defect, now fixed in /repo).",
         note=TB + "Known findings (known_findings.json): audio-entry-rate (16.16 field cannot hold rates >= 65536), av1C-csp (monochrome; behaviour pinned by a unit test). VP9 'accepted form' is the library's own synthetic header layout.",
         technique="Lean 4 proof (parser∘encoder round trip over the full AV1 header syntax) + strict-decoder oracle on the implementation's output + correspondence check",
         ref="DESIGN.md section 5 C07"),
@@ -142,7 +148,8 @@ CLAIMED = {
     "C17": dict(
         text="Kernel-checked path equivalences on the model: finish = finish_with_stats = in-place forms (same state, same chunks); audio codec None = no audio; encode_video/encode_audio are the explicit writes at the "
              "accumulated timestamp; an accepted write queues exactly what the inner writer queues for the tick values (timestamps matter only through ticks); the finish result is a function of writer state + "
-             "configuration. PARTIAL by nature: absence of hidden state in the Rust code is not a statement about the model; it is decided by the correspondence run (the model's bytes must be reproduced "
+             "configuration; the BUILDER is in the model as a state machine over its fluent calls (Model/Builder.lean) and, for every call sequence of any length, build / new_with_fragment are functions of the declarative "
+             "last-call-of-each-kind reading (Spec/BuilderSpec.lean; C17_builder_config, C17_builder_aliases, C17_builder_audio_none, C17_builder_setters, C17_builder_fragment). PARTIAL by nature: absence of hidden state in the Rust code is not a statement about the model; it is decided by the correspondence run (the model's bytes must be reproduced "
              "byte-exactly on a fresh instance, on spawned threads, on 16 concurrently running threads with a polluted thread-local invariant log, through Vec, Cursor, File and scripted sinks, through the builder "
              "aliases; convenience-vs-explicit and None-vs-no-audio pairs must deliver identical files) and the Send/Sync clause by rustc on harness-autotraits (generic over every sink type).",
         note=TB + "Thread scheduling and wall-clock time cannot be enumerated; 16-way concurrency and repeated runs sample them.",
@@ -160,8 +167,9 @@ CLAIMED = {
         text="Kernel-checked: the strict decoders (written from ISO/IEC 14496-12/-14/-15 and the AV1/VP9/Opus bindings: exact size, version/flags, reserved values, field positions) accept the model's mvhd, mdhd, hdlr, smhd, "
              "dinf/dref/url, visual and audio sample entries, avcC, hvcC, av1C, vpcC, esds, dOps and the fragmented mvhd/tkhd/vmhd/dinf/trex/sample entries and return the configured values (timescales, dimensions, "
              "handler types, identity matrix, track ids 1/2 with next_track_ID above them); the two recorded non-conformances are proved as counterexample theorems (progressive tkhd: 88-byte payload, flags 0; vmhd "
-             "flags 0) with partial theorems for the fields that are placed correctly. The same strict decoders run on the implementation's files and init segments for all codec x audio x metadata x layout configurations.",
-        note=TB + "Known findings (open, pinned by the repository's golden fixture): v-tkhd-layout, a-tkhd-layout, v-vmhd; audio-entry-rate. The strict decoders are the trusted reading of the standards (DESIGN.md Appendix A).",
+             "flags 0) with partial theorems for the fields that are placed correctly. The same strict decoders run on the implementation's files and init segments for all codec x audio x metadata x layout configurations, "
+             "including fragmented muxers built from builder call sequences with stale parameters of other codecs; av1C is compared with the certified reading (Spec/Av1Decode.lean) of the sequence header it carries.",
+        note=TB + "Known findings (open, pinned by the repository's golden fixture): v-tkhd-layout, a-tkhd-layout, v-vmhd; audio-entry-rate; f-av1C-vs-configOBUs-mono (monochrome headers, same root cause as C07 av1C-csp). Fixed in this round: uvlc() with 32 leading zeros (a4392db). The strict decoders are the trusted reading of the standards (DESIGN.md Appendix A).",
         technique="Lean 4 proof (strict decoder ∘ builder = expected fields; counterexample theorems for recorded findings) + strict-decoder oracle on the implementation's output",
         ref="DESIGN.md section 5 C19"),
     "C20": dict(
